@@ -262,6 +262,9 @@ func (c Collection) characterizeAndFlatten(nonStaticTypes map[typeCode]bool) ([]
 			for _, out := range cfm.flows[outputParams] {
 				nonStaticTypes[out] = true
 			}
+			for tc := range cfm.loose {
+				nonStaticTypes[tc] = true
+			}
 		}
 	}
 
@@ -296,6 +299,11 @@ func (c Collection) characterizeAndFlatten(nonStaticTypes map[typeCode]bool) ([]
 		case runGroup, invokeGroup:
 			for _, out := range fm.flows[outputParams] {
 				nonStaticTypes[out] = true
+			}
+			// an interface that this provider may satisfy (Loose) is not
+			// static either: its consumers must not be hoisted
+			for tc := range fm.loose {
+				nonStaticTypes[tc] = true
 			}
 		}
 
